@@ -44,6 +44,69 @@ package chain
 //@   modifies c.mbMutex
 //@   lock-balanced c.mbMutex
 
+// ---------------------------------------------------------------- balances and nonces (C01, C03, C05)
+// $bal / $nonce: the balance and nonce stored in chain state per client (ghost ledger of
+// package chaincore/chain/state).
+
+//@ spec balUnchanged() bool = forall k string :: $bal[k] == old($bal[k])
+//@ spec nonceUnchanged() bool = forall k string :: $nonce[k] == old($nonce[k])
+
+// SyncMissingNodes only starts a background fetch of trie nodes.
+//@ func (*Chain).SyncMissingNodes
+//@   trusted
+//@   modifies nothing
+
+//@ func (*Chain).emitUniqueAddressEvent
+//@   trusted
+//@   modifies nothing
+
+//@ func sumOfFromToBalance
+//@   prop C01, C05
+//@   ensures result1 == nil ==> result0 == $bal[from] + $bal[to]
+//@   modifies nothing
+
+// A transfer moves exactly `amount` from one account to another and touches no other account;
+// an amount larger than the source balance, or one that would overflow the destination, fails.
+//@ func (*Chain).transferAmount
+//@   prop C01, C05
+//@   requires c != nil
+//@   modifies $bal
+//@   dead-paths 1 -- MinusCoin cannot fail after the balance check
+//@   ensures[moves-exactly] err == nil && amount > 0 ==> fromClient != toClient && old($bal[fromClient]) >= amount && $bal[fromClient] == old($bal[fromClient]) - amount && $bal[toClient] == old($bal[toClient]) + amount
+//@   ensures[others-untouched] err == nil ==> forall k string :: k != fromClient && k != toClient ==> $bal[k] == old($bal[k])
+//@   ensures[zero-is-noop] amount == 0 ==> err == nil && balUnchanged()
+//@   ensures[no-overdraw] amount > 0 && old($bal[fromClient]) < amount ==> err != nil && balUnchanged()
+//@   ensures[failure] err != nil ==> balUnchanged() || ($bal[fromClient] == old($bal[fromClient]) - amount && (forall k string :: k != fromClient ==> $bal[k] == old($bal[k])))
+//@   ensures[sum-kept] err == nil ==> $bal[fromClient] + $bal[toClient] == old($bal[fromClient]) + old($bal[toClient]) || fromClient == toClient
+//@   ensures nonceUnchanged() || err != nil
+//@   ensures[nonces-untouched] forall k string :: $nonce[k] == old($nonce[k])
+
+//@ func (*Chain).transferAmountWithAssert
+//@   prop C01, C05
+//@   requires c != nil
+//@   modifies $bal
+//@   ensures err == nil && amount > 0 ==> $bal[fromClient] == old($bal[fromClient]) - amount && $bal[toClient] == old($bal[toClient]) + amount
+//@   ensures err == nil ==> forall k string :: k != fromClient && k != toClient ==> $bal[k] == old($bal[k])
+//@   ensures forall k string :: $nonce[k] == old($nonce[k])
+
+// A transaction's nonce must be exactly one more than the sender's nonce in state.
+//@ func (*Chain).validateNonce
+//@   prop C03
+//@   requires c != nil
+//@   ensures[exact-next] result == nil ==> txnNonce == $nonce[fromClient] + 1
+//@   ensures[reject-others] txnNonce != $nonce[fromClient] + 1 ==> result != nil
+//@   ensures balUnchanged() && nonceUnchanged()
+//@   modifies nothing
+
+//@ func (*Chain).incrementNonce
+//@   prop C03
+//@   requires c != nil && $nonce[fromClient] < MaxInt64
+//@   modifies $nonce, $bal
+//@   ensures[plus-one] result1 == nil ==> $nonce[fromClient] == old($nonce[fromClient]) + 1
+//@   ensures result1 == nil ==> forall k string :: k != fromClient ==> $nonce[k] == old($nonce[k])
+//@   ensures[balance-kept] forall k string :: $bal[k] == old($bal[k])
+//@   ensures result1 != nil ==> nonceUnchanged()
+
 //@ func (*Chain).GetMagicBlockNoOffset
 //@   prop C40
 //@   requires c != nil && rheld(c.mbMutex) == 0
